@@ -33,8 +33,13 @@ for argv in cases:
     if argv and argv[0].startswith("@path="):
         extra_path = [os.path.join(sys.argv[1], p) for p in argv[0][6:].split(",") if p]
         argv = argv[1:]
+    first_path = []
+    if argv and argv[0].startswith("@path0="):      # directories in FRONT of everything (sys.path[0]: the script's directory,
+        first_path = [os.path.join(sys.argv[1], p) for p in argv[0][7:].split(",") if p]     # or the cwd under `python -m`)
+        argv = argv[1:]
     saved_path = list(sys.path)
     sys.path[1:1] = extra_path
+    sys.path[0:0] = first_path
     before = list(sys.path)
     l = Lithium()
     res = {}
@@ -230,7 +235,12 @@ def run(ck: Check):
                   (("@path=other,d",), "d/yes.py", ("t.txt",), "d/yes.py"),
                   (("@path=d",), "d/mytest.py", ("t.txt",), "d/mytest.py"),
                   (("@path=other,.",), "yes", ("t.txt",), "yes.py"),
-                  (("@path=d",), "yes.py", ("t.txt",), "yes.py")]
+                  (("@path=d",), "yes.py", ("t.txt",), "yes.py"),
+                  # a same-named module in the directory at the very FRONT of sys.path (where `python -m lithium` has the
+                  # current directory and a script has its own): the path given still names the test
+                  (("@path0=other",), "d/yes.py", ("t.txt",), "d/yes.py"), (("@path0=.",), "d/yes.py", ("t.txt",), "d/yes.py"),
+                  (("@path0=other,.",), os.path.join(work, "d", "yes.py"), ("t.txt",), "d/yes.py"),
+                  (("@path0=d",), "yes.py", ("t.txt",), "yes.py"), (("@path0=.",), "d/mytest.py", ("t.txt",), "d/mytest.py")]
 
         def argv_of(pre, name, rest):
             out = []
